@@ -1,5 +1,6 @@
 import HpxVerif.Lemmas.PolyLemmas
 import HpxVerif.Props.C16
+import HpxVerif.Lemmas.PolyReal6
 
 set_option autoImplicit false   -- an unknown identifier in a statement is an error, never a new variable
 
@@ -25,9 +26,12 @@ Proved, for **every polygon, every numeric instance, every answer of the floatin
 * `coverage_spec`, `coverage_vertex_kept_allsky`: the value returned by `polygon_coverage` *is* the encoded concatenation
   of those descents (start depth `≤ depth`; base cells when no starting depth exists), so the theorems above speak about
   the returned BMOC.
+**Over the reals** (last section): `is_in_lon_range_spec` (no hypothesis), `crossing_test_geometric`, `contains_parity`
+(every polygon: parity of the edges crossed going south, XOR the south-pole flag), and **`contains_convex`: for every
+convex polygon of either winding, inside a hemisphere and containing no pole, and every point of the sphere not on its
+boundary, `Polygon::contains` answers exactly "inside all the edge half-spaces"** (vertex meridians and poles included).
 Left to the oracle (searched on every run; see DESIGN.md): that the start cells (neighbourhood of the bounding-cone centre
-cell) cover every vertex cell; tightness w.r.t. the bounding cone; `Polygon.contains` against the geometric definition for
-convex polygons; the `exact` mode (its `arc_special_points` root finder is not modelled: oracle only).
+cell) cover every vertex cell; tightness w.r.t. the bounding cone; the `exact` mode (its `arc_special_points` root finder is not modelled: oracle only).
 -/
 
 namespace Hpx.C12
@@ -241,5 +245,80 @@ theorem start_depth_table_regular :
       C16.dyHalvingLo (j + 2) 1 25 (Gen.smallerEdge2OpEdgeDistDyadic.getD (j + 2) (0, 0)) (Gen.smallerEdge2OpEdgeDistDyadic.getD (j + 3) (0, 0)) = true ∧
       C16.dyHalvingHi (j + 2) 1 10 (Gen.smallerEdge2OpEdgeDistDyadic.getD (j + 2) (0, 0)) (Gen.smallerEdge2OpEdgeDistDyadic.getD (j + 3) (0, 0)) = true) :=
   C16.table_halving.1
+
+/-! ## `Polygon::contains` over the reals: what the predicate computes
+
+Vocabulary of `Lemmas/PolyReal*.lean`: `Coo.Valid` (the stored unit vector is that of `(lon, lat)`, `lon ∈ [0, 2π)`,
+`lat ∈ [−π/2, π/2]`), `Coo.NonPole`, `LonRange a b l` (the shorter way round from the smaller to the larger longitude,
+closed at its western end, open at its eastern end), `CrossesSouth u w p` (the great-circle arc `u w` meets the meridian of
+`p` strictly south of `p`), `edges vs` (the closed list of edges), `Polygon.Built` (cross products and south-pole flag
+as `Polygon::new` stores them), `ConvexNoPole o vs` (orientation `o = ±1`, `≥ 3` valid non-pole vertices, strictly convex,
+inside an open hemisphere, both poles strictly outside). -/
+
+section PolygonContains
+open Hpx Hpx.Sph Real Hpx.Proj Classical
+
+/-- **`is_in_lon_range`, exactly** (every triple of reals, no hypothesis): symmetric in the two vertices. -/
+theorem is_in_lon_range_spec (coo v1 v2 : Coo ℝ) :
+    isInLonRange coo v1 v2 = true ↔ LonRange v1.lon v2.lon coo.lon :=
+  Hpx.Sph.is_in_lon_range_spec coo v1 v2
+
+/-- **the test made on one edge by `odd_num_intersect_going_south`, geometrically.**  For an edge `u → w` between two
+    points that are not poles, and a point `p` whose meridian passes through neither end point: the longitude-range test
+    and the sign test `p · N > 0` on the north-pointing normal `N = ±(u × w)` are both true iff the great-circle arc `u w`
+    (the shorter one) crosses the meridian of `p` at a point strictly SOUTH of `p`.  The only edges excluded are those
+    whose end points are on opposite meridians (`|Δlon| = π`: the arc passes over a pole); an edge along a meridian is
+    included (both sides false).  The orientation rule: the sign of `p · (u × w)` is flipped exactly when the edge goes
+    westwards (`(u × w).z < 0`, i.e. `sin Δlon < 0`). -/
+theorem crossing_test_geometric {u w p : Coo ℝ} (hu : u.Valid) (hw : w.Valid) (hp : p.Valid) (hun : u.NonPole)
+    (hwn : w.NonPole) (hopp : |w.lon - u.lon| ≠ π) (hlu : p.lon ≠ u.lon) (hlw : p.lon ≠ w.lon) :
+    (isInLonRange p u w && Num.gt (dot p (npCross u w)) (Num.zero : ℝ)) = true ↔ CrossesSouth u w p :=
+  Hpx.Sph.crossing_test_geometric hu hw hp hun hwn hopp hlu hlw
+
+/-- **`Polygon::new` over the reals**: for positions in the canonical ranges (`Coo3D::from_sph_coo` does not renormalise)
+    the vertices are the unit vectors of the positions, the normals are the north-pointing `±(v_{i-1} × v_i)`. -/
+theorem polygon_new_real (dbg : Bool) (lls : List (ℝ × ℝ)) (hne : lls ≠ [])
+    (h : ∀ ll ∈ lls, 0 ≤ ll.1 ∧ ll.1 < 2 * π ∧ -(π / 2) ≤ ll.2 ∧ ll.2 ≤ π / 2) :
+    ∃ poly, Polygon.new dbg lls = some poly ∧ poly.vertices = lls.map cooOf ∧ poly.Built :=
+  Hpx.Sph.polygon_new_real dbg lls hne h
+
+/-- **`contains` is the crossing parity.**  For a polygon as built by `Polygon::new` whose vertices are not poles and
+    none of whose edges joins two opposite meridians, and a point whose meridian passes through no vertex:
+    `contains` is the `xor` of the stored south-pole flag with "the number of edges whose great-circle arc crosses the
+    meridian of `p` strictly south of `p` is odd".  Every number of vertices (0 included: no edge). -/
+theorem contains_parity (poly : Polygon ℝ) (hb : poly.Built) (hv : ∀ v ∈ poly.vertices, v.Valid ∧ v.NonPole)
+    (hopp : ∀ e ∈ edges poly.vertices, |e.2.lon - e.1.lon| ≠ π) (p : Coo ℝ) (hp : p.Valid)
+    (hgen : ∀ v ∈ poly.vertices, p.lon ≠ v.lon) :
+    poly.contains p = xor poly.containsSouthPole
+      (oddB ((edges poly.vertices).countP (fun e => decide (CrossesSouth e.1 e.2 p)))) :=
+  Hpx.Sph.contains_parity poly hb hv hopp p hp hgen
+
+/-- **`Polygon::contains` on convex polygons, final form.**  For a polygon as built by `Polygon::new` from a strictly
+    convex list of at least 3 vertices (either winding), contained in an open hemisphere, with neither pole in the closed
+    polygon, and EVERY point `p` of the sphere (poles, vertex meridians, great circles of the edges included) that is
+    not on the boundary of the polygon (`hnb`: if `p` is in all the closed half-spaces then it is in all the open ones):
+    `contains p = true` iff `p` is strictly inside all the half-spaces of the edges. -/
+theorem contains_convex (poly : Polygon ℝ) (hb : poly.Built) (o : ℝ) (h : ConvexNoPole o poly.vertices)
+    (p : Coo ℝ) (hp : p.Valid)
+    (hnb : (∀ e ∈ edges poly.vertices, 0 ≤ o * dot p (cross e.1 e.2)) →
+      ∀ e ∈ edges poly.vertices, 0 < o * dot p (cross e.1 e.2)) :
+    poly.contains p = true ↔ ∀ e ∈ edges poly.vertices, 0 < o * dot p (cross e.1 e.2) :=
+  Hpx.Sph.contains_convex_final poly hb o h p hp hnb
+
+/-- the final form on the value returned by `Polygon::new` for positions in the canonical ranges -/
+theorem contains_convex_new (dbg : Bool) (lls : List (ℝ × ℝ))
+    (hr : ∀ ll ∈ lls, 0 ≤ ll.1 ∧ ll.1 < 2 * π ∧ -(π / 2) ≤ ll.2 ∧ ll.2 ≤ π / 2)
+    (o : ℝ) (h : ConvexNoPole o (lls.map cooOf)) (p : Coo ℝ) (hp : p.Valid)
+    (hnb : (∀ e ∈ edges (lls.map cooOf), 0 ≤ o * dot p (cross e.1 e.2)) →
+      ∀ e ∈ edges (lls.map cooOf), 0 < o * dot p (cross e.1 e.2)) :
+    ∃ poly, Polygon.new dbg lls = some poly ∧
+      (poly.contains p = true ↔ ∀ e ∈ edges (lls.map cooOf), 0 < o * dot p (cross e.1 e.2)) :=
+  Hpx.Sph.contains_convex_final_new dbg lls hr o h p hp hnb
+
+
+/-- the hypotheses of `contains_convex` are satisfiable: a concrete triangle -/
+example : ConvexNoPole 1 [triA, triB, triC] := tri_convex
+
+end PolygonContains
 
 end Hpx.C12
